@@ -140,34 +140,79 @@ def shapes(depth):
     return out
 
 
-# entry -> (mode, minimum obligations).  'symbolic': the shape mask is a nondet value (one symbolic trie covers
-# every key set at once; possible where the code under contract walks a single path).  'shapes': one branch per
-# shape with the mask a constant of the branch (needed where the code traverses the whole trie - freeze,
-# nodeCount - because --unwindset cannot name C++ functions with parameters and a global bound explodes).
-ENTRIES = [('unfrozen_node_get', 'symbolic', 4), ('unfrozen_prefix_of_buffer', 'symbolic', 3),
-           ('unfrozen_counts', 'shapes', 4), ('get_has_unfrozen', 'symbolic', 7), ('has_size_raises', 'symbolic', 2),
-           ('longest_unfrozen', 'symbolic', 5), ('longest_frozen', 'shapes', 6), ('frozen_layout', 'shapes', 8),
-           ('get_has_frozen', 'shapes', 8), ('defrost_refreeze_clear', 'shapes', 6)]
+# entry -> (mode, code run inside each shape branch, minimum obligations).
+# 'symbolic': the shape mask is a nondet value: one symbolic trie covers every key set at once (possible where
+#   the code under contract walks a single path along the query).
+# 'shapes': one branch per shape, the mask a constant of the branch: needed where the code traverses the whole
+#   trie (freeze, nodeCount, size), because --unwindset cannot name C++ functions with parameters and a global
+#   bound on a symbolic fan-out explodes.  The `prefix` (e.g. the real freeze()) runs inside every branch; the
+#   body (the lookups, b_<entry>) runs once after the branches have merged, on the merged - symbolic - state.
+ENTRIES = [('unfrozen_node_get', 'symbolic', '', 4), ('unfrozen_prefix_of_buffer', 'symbolic', '', 3),
+           ('longest_unfrozen', 'symbolic', '', 5), ('get_has_unfrozen', 'symbolic', '', 7),
+           ('has_size_raises', 'symbolic', '', 2),
+           ('unfrozen_counts', 'shapes', 'p_counts();', 4),
+           ('frozen_layout', 'shapes', 'p_frozen_layout();', 8),
+           ('longest_frozen', 'shapes', 'T.freeze(); relocate();', 6),
+           ('get_has_frozen', 'shapes', 'T.freeze(); p_frozen_size(); relocate();', 8),
+           ('refreeze', 'shapes', 'T.freeze(); T.freeze(); relocate();', 3),
+           ('defrost', 'shapes', 'p_defrost();', 4),
+           ('clear', 'shapes', 'p_clear();', 3),
+           ('step_add', 'shapes_keys', 'p_step_add();', 8), ('step_remove', 'shapes_keys', 'p_step_remove();', 8),
+           ('step_node_remove', 'shapes_keys', 'p_step_node_remove();', 4)]
 
 
-def dispatch(masks):
+def key_of(kid):
+    k = ''
+    while kid > 0:
+        k = 'ab'[(kid - 1) % 2] + k
+        kid = (kid - 1) // 2
+    return k
+
+
+def dispatch(masks, depth, only=None, kids=None):
+    """only: restrict to these entries (others get no dispatcher); kids: key ids for the step entries."""
+    nn = 2 ** (depth + 1) - 1
+    kids = list(range(1, nn)) if kids is None else kids
     out = []
-    for e, mode, _ in ENTRIES:
-        out.append('extern "C" void h_%s() {\n  any_values();' % e)
+    for e, mode, prefix, _ in ENTRIES:
+        if only is not None and e not in only:
+            continue
+        out.append('extern "C" void h_%s() {\n  any_values();%s' % (e, ' values_before();' if mode == 'shapes_keys' else ''))
         if mode == 'symbolic':
             out.append('  any_state(nondet_uint());\n  b_%s();\n}' % e)
             continue
         out.append('  switch (nondet_uint()) {')
         for k, m in enumerate(masks):
-            out.append('    case %d: any_state(0x%xu); b_%s(); break;' % (k, m, e))
-        out.append('    default: __CPROVER_assume(0);\n  }\n}')
+            if mode == 'shapes':
+                out.append('    case %d: any_state(0x%xu); %s break;' % (k, m, prefix))
+            else:   # shapes x keys: shape and key are constants of the branch
+                out.append('    case %d: any_state(0x%xu); model_before(); p_init_exp_vi(); switch (nondet_uint()) {' % (k, m))
+                for j, kid in enumerate(kids):
+                    ks = key_of(kid)
+                    setk = ' '.join("key[%d] = '%s';" % (i, c) for i, c in enumerate(ks)) + ' key[%d] = 0; klen = %d; kid = %d;' % (len(ks), len(ks), kid)
+                    out.append('      case %d: %s %s break;' % (j, setk, prefix))
+                out.append('      default: __CPROVER_assume(0);\n    } break;')
+        out.append('    default: __CPROVER_assume(0);\n  }\n  b_%s();\n}' % e)
     return '\n'.join(out)
 
 
-def harness(depth, qlen, root_valued, masks):
+def abstraction_code(depth):
+    """Generated, loop-free abstraction function: the real node reached by spelling path id from the root
+    through the real (stub) map's find, or 0."""
+    nn = 2 ** (depth + 1) - 1
+    lines = ['  node_of[0] = &T.root;']
+    for i in range(1, nn):
+        par, ch = (i - 1) // 2, 'ab'[(i - 1) % 2]
+        lines.append("  node_of[%d] = 0; if (node_of[%d]) { char k = '%s'; verif_trieEntry *it = node_of[%d]->leaves.find(k); "
+                     "if (it != node_of[%d]->leaves.end()) node_of[%d] = &it->second; }" % (i, par, ch, par, par, i))
+    return '\n'.join(lines)
+
+
+def harness(depth, qlen, root_valued, masks, only=None, kids=None):
     nn = 2 ** (depth + 1) - 1
     arrays, conc = state_code(depth)
-    return (HARNESS + dispatch(masks)).replace('@ARRAYS@', arrays).replace('@CONCRETISE@', conc).replace('@NN@', str(nn)).replace('@NI@', str(2 ** depth - 1)) \
+    return (HARNESS + dispatch(masks, depth, only, kids)).replace('@ARRAYS@', arrays).replace('@CONCRETISE@', conc) \
+        .replace('@ABSTRACT@', abstraction_code(depth)).replace('@DEPTH@', str(depth)).replace('@NN@', str(nn)).replace('@NI@', str(2 ** depth - 1)) \
                   .replace('@QL@', str(qlen)).replace('@ROOTV@', '1' if root_valued else '0')
 
 
@@ -188,6 +233,9 @@ int verif_trie_pool_used = 0;
 #define NI @NI@           /* nodes that can have children */
 #define QL @QL@           /* query length bound */
 #define ROOT_VALUED @ROOTV@
+#ifndef ORPHANS
+#define ORPHANS 0
+#endif
 static bool present[NN];
 static int  value[NN];
 static int  nvalues;                       /* values.size() */
@@ -223,6 +271,10 @@ static void any_state(unsigned mask) {
     value[id] = present[id] ? rawv[id] : -1;
   }
   nvalues = count_valued();
+#if ORPHANS
+  /* relaxed INV for the values-shifting loop of trie::remove: values may hold entries no key refers to */
+  { int extra = nondet_int(); __CPROVER_assume(0 <= extra && extra <= ORPHANS); nvalues += extra; }
+#endif
   for (int i = 0; i < NN; ++i) __CPROVER_assume(value[i] < nvalues);
   T.values.n_ = (size_t) nvalues;
   /* concretise: write the state straight into the map arrays of the real classes
@@ -302,13 +354,15 @@ static void b_unfrozen_prefix_of_buffer() {
 #endif
 }
 
-static void b_unfrozen_counts() {
+static void p_counts() {
   __CPROVER_assert(T.root.size() == count_valued(), "trieNode::size counts the stored keys");
   __CPROVER_assert(T.root.nodeCount() == count_present(), "trieNode::nodeCount counts the nodes below the root");
   __CPROVER_assert(T.size() == count_valued(), "unfrozen size() counts the stored keys");
   __CPROVER_assert(T.isEmpty() == (count_present() == 0), "isEmpty iff the root has no children");
+}
+static void b_unfrozen_counts() {
 #ifdef CANARY
-  __CPROVER_assert(T.root.size() != 3, "canary");
+  __CPROVER_assert(count_valued() != 3, "canary");
 #endif
 }
 
@@ -327,90 +381,118 @@ static void check_result(bool frozen) {
     __CPROVER_assert(r.length == rlen, "unfrozen getLongest returns the length of the longest stored prefix");
     __CPROVER_assert(r.value() == (rval >= 0 ? T.values.data_[rval] : T.defaultValue), "unfrozen getLongest value() is the value stored for that key, else the default");
   }
+  __CPROVER_assert(r.trie_ == &T, "result refers to the trie it came from");
+}
+
+/* The flattened arrays the real freeze() produced in a shape branch are moved, element by element, into
+   static storage, so that after the branches merge the real lookup runs ONCE on arrays whose contents are
+   the merge of every shape's frozen image (the lookup only reads the arrays through the four pointers). */
+static char F_chars[NN + 1];
+static int  F_offsets[NN + 1], F_leafCount[NN + 1], F_valueIndices[NN + 1];
+static void relocate() {
+  __CPROVER_assert(T.isFrozen && 0 <= T.nodeCount && T.nodeCount < NN, "freeze() leaves the trie frozen with one array entry per node below the root");
+  for (int i = 0; i <= T.nodeCount && i <= NN; ++i) {
+    F_chars[i] = T.chars[i]; F_offsets[i] = T.offsets[i];
+    F_leafCount[i] = T.leafCount[i]; F_valueIndices[i] = T.valueIndices[i];
+  }
+  delete [] T.chars; delete [] T.offsets; delete [] T.leafCount; delete [] T.valueIndices;
+  T.chars = F_chars; T.offsets = F_offsets; T.leafCount = F_leafCount; T.valueIndices = F_valueIndices;
 }
 
 static void b_longest_frozen() {
   any_query(nondet_bool());
   ref_longest();
-  T.freeze();
-  __CPROVER_assert(T.isFrozen, "freeze() leaves the trie frozen");
+  r_ = T.getLongest(q, qlen);
+  check_result(true);
+#ifdef CANARY
+  __CPROVER_assert(r_.valueIndex != 3 || r_.length != 2, "canary");
+#endif
+}
+
+static void b_refreeze() {
+  any_query(true);
+  ref_longest();
   trie::result_t f = T.getLongest(q, qlen);
-  r_ = f; check_result(true);
-  __CPROVER_assert(f.trie_ == &T, "result refers to the trie it came from");
+  __CPROVER_assert(f.length == rlen && f.valueIndex == rval, "getLongest after freezing twice is still the longest stored prefix");
 #ifdef CANARY
   __CPROVER_assert(f.valueIndex != 3 || f.length != 2, "canary");
 #endif
-  T.defrost();
 }
 
 static void b_longest_unfrozen() {
   any_query(nondet_bool());
   ref_longest();
-  trie::result_t u = T.getLongest(q, qlen);              /* not frozen: goes through trieGetLongest */
-  r_ = u; check_result(false);
-  __CPROVER_assert(u.trie_ == &T, "result refers to the trie it came from");
+  r_ = T.getLongest(q, qlen);              /* not frozen: goes through trieGetLongest */
+  check_result(false);
 #ifdef CANARY
-  __CPROVER_assert(u.valueIndex != 3 || u.length != 2, "canary");
+  __CPROVER_assert(r_.valueIndex != 3 || r_.length != 2, "canary");
 #endif
 }
 
-static void b_frozen_layout() {
+static void p_frozen_layout() {
   /* what freeze() establishes: the array well-formedness the C lookup proof assumes */
   T.freeze();
   int n = count_present();
+  __CPROVER_assert(T.isFrozen, "freeze() leaves the trie frozen");
   __CPROVER_assert(T.nodeCount == n, "freeze: nodeCount is the number of nodes below the root");
   __CPROVER_assert(T.baseNodeCount == (int) T.root.leaves.size(), "freeze: baseNodeCount is the root fan-out");
   __CPROVER_assert(T.offsets[n] == n && T.leafCount[n] == 0 && T.valueIndices[n] == -1 && T.chars[n] == 0, "freeze: sentinel entry");
   int k = nondet_int();
-  __CPROVER_assume(0 <= k && k < n);
-  __CPROVER_assert(0 <= T.leafCount[k] && 0 <= T.offsets[k] && T.offsets[k] + T.leafCount[k] <= n, "freeze: every child block lies inside the arrays");
-  __CPROVER_assert(-1 <= T.valueIndices[k] && T.valueIndices[k] < nvalues, "freeze: value indices copied in range");
-  __CPROVER_assert(k < T.offsets[k] || T.leafCount[k] == 0, "freeze: children are laid out after their parent");
-  int j = nondet_int();
-  if (0 <= j && j < T.leafCount[k] - 1)
-    __CPROVER_assert(T.chars[T.offsets[k] + j] < T.chars[T.offsets[k] + j + 1], "freeze: each child block is sorted by character (binary search precondition)");
+  if (0 <= k && k < n) {
+    __CPROVER_assert(0 <= T.leafCount[k] && 0 <= T.offsets[k] && T.offsets[k] + T.leafCount[k] <= n, "freeze: every child block lies inside the arrays");
+    __CPROVER_assert(-1 <= T.valueIndices[k] && T.valueIndices[k] < nvalues, "freeze: value indices copied in range");
+    __CPROVER_assert(k < T.offsets[k] || T.leafCount[k] == 0, "freeze: children are laid out after their parent");
+    int j = nondet_int();
+    if (0 <= j && j < T.leafCount[k] - 1)
+      __CPROVER_assert(T.chars[T.offsets[k] + j] < T.chars[T.offsets[k] + j + 1], "freeze: each child block is sorted by character (binary search precondition)");
+  }
   int b = nondet_int();
   if (0 <= b && b < T.baseNodeCount - 1)
     __CPROVER_assert(T.chars[b] < T.chars[b + 1], "freeze: the root block is sorted by character");
-#ifdef CANARY
-  __CPROVER_assert(T.nodeCount != 3, "canary");
-#endif
   T.defrost();
+}
+static void b_frozen_layout() {
+#ifdef CANARY
+  __CPROVER_assert(count_present() != 3, "canary");
+#endif
 }
 
 static void check_get_has(bool frozen) {
   int ex = ref_exact();
   trie::result_t g = T.get(q, qlen);
   trie::result_t g2 = T.get(q);                          /* INT_MAX -> strlen */
+  bool h = T.has(q);
   if (frozen) {
     __CPROVER_assert(g.success() == (ex >= 0), "frozen get(c, length) succeeds exactly for stored keys");
     __CPROVER_assert(g.valueIndex == ex, "frozen get(c, length) returns the stored key's value index, else -1");
     __CPROVER_assert(g2.valueIndex == ex, "frozen get(c) returns the stored key's value index, else -1");
     __CPROVER_assert(g.value() == (ex >= 0 ? T.values.data_[ex] : T.defaultValue), "frozen get value() is the key's value, else the default");
-    __CPROVER_assert(T.has(q) == (ex >= 0), "frozen has(c) is true exactly for stored keys");
+    if (qlen > 0) __CPROVER_assert(h == (ex >= 0), "frozen has(c) is true exactly for stored keys");
+    else __CPROVER_assert(h == (ex >= 0), "frozen has(\"\") is true only if the empty key is stored");
     if (qlen > 0) __CPROVER_assert(T.has(q, qlen) == (ex >= 0), "frozen has(c, size) is true exactly for stored keys");
   } else {
     __CPROVER_assert(g.success() == (ex >= 0), "unfrozen get(c, length) succeeds exactly for stored keys");
     __CPROVER_assert(g.valueIndex == ex, "unfrozen get(c, length) returns the stored key's value index, else -1");
     __CPROVER_assert(g2.valueIndex == ex, "unfrozen get(c) returns the stored key's value index, else -1");
     __CPROVER_assert(g.value() == (ex >= 0 ? T.values.data_[ex] : T.defaultValue), "unfrozen get value() is the key's value, else the default");
-    __CPROVER_assert(T.has(q) == (ex >= 0), "unfrozen has(c) is true exactly for stored keys");
+    if (qlen > 0) __CPROVER_assert(h == (ex >= 0), "unfrozen has(c) is true exactly for stored keys");
+    else __CPROVER_assert(h == (ex >= 0), "unfrozen has(\"\") is true only if the empty key is stored");
     if (qlen > 0) __CPROVER_assert(T.has(q, qlen) == (ex >= 0), "unfrozen has(c, size) is true exactly for stored keys");
   }
 }
 
+static void p_frozen_size() {
+  __CPROVER_assert(T.size() == count_valued(), "frozen size() counts the stored keys");
+}
 static void b_get_has_frozen() {
   any_query(true);
-  T.freeze();
   check_get_has(true);
   char c = nondet_char();
   bool some = (c == 'a' && NN > 1 && present[1]) || (c == 'b' && NN > 2 && present[2]);
   __CPROVER_assert(T.has(c) == some, "frozen has(char) iff the root has a child for that character");
-  __CPROVER_assert(T.size() == count_valued(), "frozen size() counts the stored keys");
 #ifdef CANARY
   __CPROVER_assert(!T.has(q), "canary");
 #endif
-  T.defrost();
 }
 
 static void b_get_has_unfrozen() {
@@ -428,7 +510,7 @@ static void b_has_size_raises() {
   /* has(c, size) with size <= 0 is an invalid request: it must raise, and only then */
   any_query(true);
   int size = nondet_int();
-  __CPROVER_assume(size <= QL);
+  __CPROVER_assume(size <= qlen);
   verif_raise_allowed = (size <= 0);
   bool r = T.has(q, size);
   __CPROVER_assert(size > 0, "has(c, size) with size <= 0 raises");
@@ -437,30 +519,238 @@ static void b_has_size_raises() {
 #endif
 }
 
-static void b_defrost_refreeze_clear() {
-  any_query(true);
-  ref_longest();
+static void p_defrost() {
   T.freeze();
-  T.freeze();                                            /* re-freeze goes through defrost() */
-  trie::result_t f = T.getLongest(q, qlen);
-  __CPROVER_assert(f.length == rlen && f.valueIndex == rval, "getLongest after re-freeze is still the longest stored prefix");
   T.defrost();
   __CPROVER_assert(!T.isFrozen && T.chars == 0 && T.offsets == 0 && T.leafCount == 0 && T.valueIndices == 0 && T.nodeCount == 0 && T.baseNodeCount == 0,
                    "defrost() releases the flattened arrays and leaves the trie unfrozen");
+  T.defrost();
+  __CPROVER_assert(!T.isFrozen && T.chars == 0, "defrost() twice is harmless");
+  __CPROVER_assert(T.size() == count_valued(), "size() after defrost counts the stored keys");
+}
+static void b_defrost() {
+  any_query(true);
+  ref_longest();
   trie::result_t u = T.getLongest(q, qlen);
-  __CPROVER_assert(u.length == rlen && u.valueIndex == rval, "getLongest after defrost is still the longest stored prefix");
-  T.defrost();                                           /* idempotent */
-  __CPROVER_assert(!T.isFrozen, "defrost() twice is harmless");
+  __CPROVER_assert(u.length == rlen && u.valueIndex == rval, "getLongest after freeze and defrost is still the longest stored prefix");
+#ifdef CANARY
+  __CPROVER_assert(u.valueIndex != 3 || u.length != 2, "canary");
+#endif
+}
+
+/* ------------------------------------------------------------------ (d) history: one-operation inductive step
+   From EVERY state of the bounded shape satisfying INV, one add / remove of any key of length 1..DEPTH over
+   {a,b} (shape and key are constants of the calling branch, values symbolic) is executed on the real text; the post-state is read back through the abstraction function and
+   compared with the model (set of stored keys, the value of each, INV again, maps sorted).  With the lookup
+   groups (correct on every such state) this covers every history that stays inside the shape bound. */
+#define DEPTH @DEPTH@
+static trieNode *node_of[NN];
+static void abstract_state() {
+@ABSTRACT@
+}
+static bool exp_stored[NN];
+static bool removed_one;
+static int  exp_val[NN];
+static char key[DEPTH + 1];
+static int  klen, kid;
+static int pre_val[NN];
+static void values_before() {          /* once, before the shape branches: the value each raw index denotes */
+  for (int id = 0; id < NN; ++id) pre_val[id] = rawv[id] >= 0 ? T.values.data_[rawv[id]] : 0;
+}
+static void model_before() {
+  for (int id = 0; id < NN; ++id) {
+    exp_stored[id] = value[id] >= 0;
+    exp_val[id] = pre_val[id];
+  }
+}
+static void check_model(bool is_add) {
+  abstract_state();
+  int stored = 0;
+  int vis[NN];
+  for (int id = 0; id < NN; ++id) {
+    trieNode *node = node_of[id];
+    int vi = node ? node->valueIndex : -1;
+    vis[id] = vi;
+    if (vi >= 0) ++stored;
+    if (is_add) {
+      __CPROVER_assert((vi >= 0) == exp_stored[id], "after add: the stored keys are the old ones plus the added key");
+      __CPROVER_assert(-1 <= vi && vi < (int) T.values.size(), "after add: every value index is inside values");
+      if (vi >= 0 && vi < (int) T.values.size())
+        __CPROVER_assert(T.values.data_[vi] == exp_val[id], "after add: every key has its most recently added value");
+    } else {
+      __CPROVER_assert((vi >= 0) == exp_stored[id], "after remove: the stored keys are the old ones minus the removed key");
+      __CPROVER_assert(-1 <= vi && vi < (int) T.values.size(), "after remove: every value index is inside values");
+      if (vi >= 0 && vi < (int) T.values.size())
+        __CPROVER_assert(T.values.data_[vi] == exp_val[id], "after remove: every remaining key keeps its value");
+    }
+    if (node) {
+      int n = (int) node->leaves.size();
+      __CPROVER_assert(0 <= n && n <= 2, "step: fan-out stays within the alphabet");
+      if (n >= 1) __CPROVER_assert(node->leaves.ents[0].first == 'a' || node->leaves.ents[0].first == 'b', "step: child characters stay within the alphabet");
+      if (n == 2) __CPROVER_assert(node->leaves.ents[0].first == 'a' && node->leaves.ents[1].first == 'b', "step: children stay sorted by character");
+      if (id >= NN / 2) __CPROVER_assert(n == 0, "step: the trie stays within the depth bound");
+    }
+  }
+  for (int i = 0; i < NN; ++i)
+    for (int j = i + 1; j < NN; ++j)
+      __CPROVER_assert(vis[i] < 0 || vis[i] != vis[j], "step: value indices stay pairwise distinct (INV)");
+#if ORPHANS
+  __CPROVER_assert((int) T.values.size() == nvalues - (removed_one ? 1 : 0), "remove: values shrinks by one exactly when a stored key was removed");
+#else
+  __CPROVER_assert((int) T.values.size() == stored, "step: values.size() stays the number of stored keys (INV)");
+#endif
+}
+
+static void p_step_add() {
+  int v = nondet_int();
+  __CPROVER_assume(nvalues < VERIF_VEC_CAP);
+  T.add(key, v);
+  exp_stored[kid] = true; exp_val[kid] = v;
+  __CPROVER_assert(!T.isFrozen, "add() with autoFreeze off leaves the trie unfrozen");
+}
+static void b_step_add() {
+  check_model(true);          /* once, on the merge of every branch's post-state */
+#ifdef CANARY
+  __CPROVER_assert(count_valued() != 2, "canary");
+#endif
+}
+
+/* remove, node half: trieNode::remove(c, length, valueIndex_) = nestedRemove + decrementIndex, called as
+   trie::remove calls it (the key is stored and valueIndex_ is its index): the key's node loses its value,
+   every larger index moves down by one, nothing else changes. */
+static int exp_vi[NN];
+static void p_step_node_remove() {
+  int vi = value[kid];
+  if (vi < 0) return;                                    /* trie::remove calls root.remove only for stored keys */
+  for (int id = 0; id < NN; ++id) exp_vi[id] = value[id] > vi ? value[id] - 1 : value[id];
+  exp_vi[kid] = -1;
+  T.root.remove(key, klen, vi);
+}
+static void b_step_node_remove() {
+  abstract_state();
+  for (int id = 0; id < NN; ++id) {
+    trieNode *node = node_of[id];
+    int got = node ? node->valueIndex : -1;
+    __CPROVER_assert(got == exp_vi[id], "trieNode::remove: the key loses its value, larger value indices move down by one, the rest is unchanged");
+    if (node) {
+      int n = (int) node->leaves.size();
+      __CPROVER_assert(0 <= n && n <= 2, "step: fan-out stays within the alphabet");
+      if (n == 1) __CPROVER_assert(node->leaves.ents[0].first == 'a' || node->leaves.ents[0].first == 'b', "step: child characters stay within the alphabet");
+      if (n == 2) __CPROVER_assert(node->leaves.ents[0].first == 'a' && node->leaves.ents[1].first == 'b', "step: children stay sorted by character");
+    }
+  }
+#ifdef CANARY
+  __CPROVER_assert(exp_vi[1] != 1 && exp_vi[2] != 1, "canary");
+#endif
+}
+static void p_init_exp_vi() { for (int id = 0; id < NN; ++id) exp_vi[id] = value[id]; }
+
+/* remove, trie half: trie::remove(c) whole (getValueIndex, defrost, root.remove, shifting of values, pop_back) */
+static void p_step_remove() {
+  removed_one = exp_stored[kid];
+  T.remove(key);
+  exp_stored[kid] = false;
+  __CPROVER_assert(!T.isFrozen, "remove() with autoFreeze off leaves the trie unfrozen");
+}
+static void b_step_remove() {
+  check_model(false);         /* once, on the merge of every branch's post-state */
+#ifdef CANARY
+  __CPROVER_assert(count_valued() != 2, "canary");
+#endif
+}
+
+static void p_clear() {
   if (nondet_bool()) T.freeze();
   T.clear();
-  __CPROVER_assert(!T.isFrozen && T.size() == 0 && T.isEmpty(), "clear() leaves an empty, unfrozen trie");
+  __CPROVER_assert(!T.isFrozen && T.chars == 0 && T.size() == 0 && T.isEmpty(), "clear() leaves an empty, unfrozen trie");
+}
+static void b_clear() {
+  any_query(true);
   trie::result_t e = T.getLongest(q, qlen);
   __CPROVER_assert(!e.success() && e.length == 0, "nothing is found in a cleared trie");
+  __CPROVER_assert(!T.has(q) || qlen == 0, "no key is in a cleared trie");
 #ifdef CANARY
-  __CPROVER_assert(f.valueIndex != 3, "canary");
+  __CPROVER_assert(e.success(), "canary");
 #endif
 }
 '''
+
+
+# ---------------------------------------------------------------- (c) frozen lookup in C, any query length
+
+MAXN = 16      # stated bound on nodeCount for the C proof (well-formedness is assumed node by node)
+
+
+def c_lookup_group(ctx):
+    fn = extract_function(ctx, TRIE_TPP,
+                          r'^  template <class TM>\n  typename trie<TM>::result_t trie<TM>::getLongest\(const char \*c,\s*const int length\) const \{',
+                          name='trie<TM>::getLongest (frozen lookup)')
+    hpp = ctx.read(TRIE_HPP)
+    # default arguments of trie<TM>::result_t(const trie*, length_ = 0, valueIndex_ = -1) are what `result_t(this)` means
+    if not re.search(r'result_t\(const trie<TM> \*trie__,\s*const int length_ = 0,\s*const int valueIndex_ = -1\);', hpp):
+        raise Undecided('extraction break: default arguments of trie<TM>::result_t constructor changed')
+    wf = ' &&\n  '.join('(%d >= nodeCount || (0 <= leafCount[%d] && 0 <= offsets[%d] && offsets[%d] <= nodeCount - leafCount[%d]))'
+                        % (k, k, k, k, k) for k in range(MAXN))
+    text = rewrite(fn, [
+        ('C: member function -> function over the flattened arrays (members become parameters), result_t -> two out-parameters',
+         r'^  template <class TM>\n  typename trie<TM>::result_t trie<TM>::getLongest\(const char \*c,\s*const int length\) const \{',
+         'void trie_getLongest(const bool isFrozen, const int nodeCount, const int baseNodeCount,\n'
+         '                     const char *chars, const int *offsets, const int *leafCount, const int *valueIndices,\n'
+         '                     const char *c, const int length, int *out_length, int *out_valueIndex)\n'
+         '__CPROVER_requires(isFrozen)\n'
+         '__CPROVER_requires(0 <= nodeCount && nodeCount <= %d && 0 <= baseNodeCount && baseNodeCount <= nodeCount)\n'
+         '__CPROVER_requires(__CPROVER_is_fresh(chars, nodeCount + 1) && __CPROVER_is_fresh(offsets, sizeof(int) * (nodeCount + 1)))\n'
+         '__CPROVER_requires(__CPROVER_is_fresh(leafCount, sizeof(int) * (nodeCount + 1)) && __CPROVER_is_fresh(valueIndices, sizeof(int) * (nodeCount + 1)))\n'
+         '/* W: every child block lies inside the arrays (what freeze() establishes; checked on the real freeze in trie/frozen_layout) */\n'
+         '__CPROVER_requires(%s)\n'
+         '/* the query is a buffer of exactly `length` bytes, any length */\n'
+         '__CPROVER_requires(0 <= length && __CPROVER_is_fresh(c, length))\n'
+         '__CPROVER_requires(__CPROVER_is_fresh(out_length, sizeof(int)) && __CPROVER_is_fresh(out_valueIndex, sizeof(int)))\n'
+         '__CPROVER_assigns(*out_length, *out_valueIndex)\n'
+         '__CPROVER_ensures((*out_length == 0 && *out_valueIndex == -1) || (1 <= *out_length && *out_length <= length && 0 <= *out_valueIndex))\n'
+         '{' % (MAXN, wf), 1),
+        ('C: the unfrozen branch delegates to trieGetLongest (C++ groups); unreachable under the precondition isFrozen',
+         r'return trieGetLongest\(c, length\);', '{ __CPROVER_assert(0, "frozen lookup: unfrozen branch not taken"); return; }', 1),
+        ('C: result_t(this, retLength, retValueIndex) -> out-parameters',
+         r'return result_t\(this, retLength, retValueIndex\);', '{ *out_length = retLength; *out_valueIndex = retValueIndex; return; }', 1),
+        ('C: result_t(this) = result_t(this, 0, -1) (default arguments checked against the header) -> out-parameters',
+         r'return result_t\(this\);', '{ *out_length = 0; *out_valueIndex = -1; return; }', 1),
+    ])
+    outer = ('__CPROVER_assigns(i, c, retLength, retValueIndex, offset, count)\n'
+             '__CPROVER_loop_invariant(0 <= i && i <= length)\n'
+             '__CPROVER_loop_invariant(__CPROVER_same_object(c, cStart) && __CPROVER_POINTER_OFFSET(c) == __CPROVER_POINTER_OFFSET(cStart) + i)\n'
+             '__CPROVER_loop_invariant(0 <= offset && 0 <= count && offset <= nodeCount - count)\n'
+             '__CPROVER_loop_invariant((retLength == 0 && retValueIndex == -1) || (1 <= retLength && retLength <= i && 0 <= retValueIndex))\n'
+             '__CPROVER_decreases(length - i)')
+    inner = ('__CPROVER_assigns(start, end, found, c, retLength, retValueIndex, offset, count)\n'
+             '__CPROVER_loop_invariant(0 <= count && count <= nodeCount && 0 <= start && start <= count && -1 <= end && end < count && start <= end + 1 && !found)\n'
+             '__CPROVER_loop_invariant(0 <= i && i < length)\n'
+             '__CPROVER_loop_invariant(__CPROVER_same_object(c, cStart) && __CPROVER_POINTER_OFFSET(c) == __CPROVER_POINTER_OFFSET(cStart) + i)\n'
+             '__CPROVER_loop_invariant(0 <= offset && 0 <= count && offset <= nodeCount - count)\n'
+             '__CPROVER_loop_invariant((retLength == 0 && retValueIndex == -1) || (1 <= retLength && retLength <= i && 0 <= retValueIndex))\n'
+             '__CPROVER_decreases(end - start + 1)')
+    text, nloops = insert_loop_contracts(text, {0: outer, 1: inner}, 'trie::getLongest')
+    if nloops != 2:
+        raise Undecided('extraction break: trie<TM>::getLongest has %d loops, the contracts are written for 2' % nloops)
+    src = r'''#include <stddef.h>
+#include <stdbool.h>
+%s
+void h_frozen_lookup(void) {
+  bool isFrozen; int nodeCount, baseNodeCount;
+  const char *chars; const int *offsets, *leafCount, *valueIndices;
+  const char *c; int length; int *out_length, *out_valueIndex;
+  trie_getLongest(isFrozen, nodeCount, baseNodeCount, chars, offsets, leafCount, valueIndices, c, length, out_length, out_valueIndex);
+#ifdef CANARY
+  __CPROVER_assert(*out_length != 5, "canary: the lookup result is reachable and unconstrained");
+#endif
+}
+''' % text
+    return Group(name='frozen-lookup/memory-safe-any-query-length', sources={'lookup.c': src}, entry='h_frozen_lookup',
+                 lang='c', enforce=['trie_getLongest'], loop_contracts=True, min_obligations=40, expect_loops=2,
+                 functions=[fn], canary='CANARY', canary_label='canary', strength='bounded',
+                 bound='nodeCount <= %d (array well-formedness assumed node by node); query length unbounded' % MAXN,
+                 timeout=600, replay=None,
+                 note='both loops closed by loop contracts; terminating (decreases clauses)')
 
 
 def build(ctx):
@@ -469,23 +759,62 @@ def build(ctx):
     qlen = depth + 1
     nn = 2 ** (depth + 1) - 1
     files, fns = cpp_unit(ctx)
-    groups = []
+    groups = [c_lookup_group(ctx)]
     bound = 'keys over {a,b} of length <= %d (every key set), queries over {a,b,c} of length <= %d' % (depth, qlen)
     # harness loops with constant trip counts (node count, vector capacity) and the traversals without
     # parameters are bounded exactly; everything else (query loops, recursion along the query) by qlen + 2
     big = nn + 18
     uset = ['%s.%d:%d' % (f, i, big) for f, n in
-            [('any_state(unsigned_int)', 2), ('any_values()', 4), ('count_valued()', 1), ('count_present()', 1),
-             ('any_query(bool)', 1), ('ref_longest()', 1), ('ref_exact()', 1), ('strlen', 1)] for i in range(n)]
+            [('any_state(unsigned_int)', 2), ('any_values()', 4), ('count_valued()', 1), ('count_present()', 1), ('relocate()', 1),
+             ('any_query(bool)', 1), ('model_before()', 1), ('values_before()', 1), ('p_step_node_remove()', 1), ('b_step_node_remove()', 1), ('p_init_exp_vi()', 1), ('check_model(bool)', 3), ('ref_longest()', 1), ('ref_exact()', 1), ('strlen', 1)] for i in range(n)]
     for f in ('occa::trieNode::size($constthis)', 'occa::trieNode::nodeCount($constthis)'):
         uset += ['%s.0:4' % f, '%s:%d' % (f, depth + 2)]
     src = dict(files)
-    src['c28.cpp'] = harness(depth, qlen, False, shapes(depth))
-    for e, mode, mino in ENTRIES:
+    src['c28.cpp'] = harness(depth, qlen, False, shapes(depth), only=[e for e, m, _, _ in ENTRIES if m != 'shapes_keys'])
+    for e, mode, _, mino in ENTRIES:
+        if mode == 'shapes_keys':
+            continue
         groups.append(Group(
             name='trie/' + e, sources=src, entry='h_' + e, lang='cpp',
             unwind=qlen + 2, unwindset=uset, min_obligations=mino, functions=fns,
-            canary='CANARY', canary_label='canary', strength='bounded', bound=bound, timeout=900,
-            defines=['VERIF_TRIE_POOL=1'], object_bits=12,
+            canary='CANARY', canary_label='canary', strength='bounded', bound=bound, timeout=(1800 if thorough else 240),
+            defines=['VERIF_TRIE_POOL=%d' % depth], object_bits=12,
             replay=replay_C28.replay_state))
+    # the empty key "" (a value on the root): same obligations, own groups
+    srce = dict(files)
+    srce['c28.cpp'] = harness(depth, qlen, True, shapes(depth), only=[e for e, m, _, _ in ENTRIES if m != 'shapes_keys'])
+    for e, mode, _, mino in ENTRIES:
+        if e not in ('longest_unfrozen', 'longest_frozen', 'get_has_unfrozen', 'get_has_frozen'):
+            continue
+        groups.append(Group(
+            name='emptykey/' + e, sources=srce, entry='h_' + e, lang='cpp',
+            unwind=qlen + 2, unwindset=uset, min_obligations=mino, functions=fns,
+            canary='CANARY', canary_label='canary', strength='bounded', bound=bound + ', the empty key may be stored',
+            timeout=(1800 if thorough else 240), defines=['VERIF_TRIE_POOL=%d' % depth], object_bits=12,
+            param='empty key', replay=replay_C28.replay_state))
+    # history step: one group per operation and key (shape x key are constants of a branch)
+    for e in ('step_add', 'step_node_remove'):
+        for kid in range(1, nn):
+            src = dict(files)
+            src['c28.cpp'] = harness(depth, qlen, False, shapes(depth), only=[e], kids=[kid])
+            groups.append(Group(
+                name='trie/%s[key=%s]' % (e, key_of(kid)), sources=src, entry='h_' + e, lang='cpp',
+                unwind=(depth + 2 if e == 'step_node_remove' else qlen + 2), unwindset=uset, min_obligations=4, functions=fns,
+                canary='CANARY', canary_label='canary', strength='bounded',
+                bound='one operation from every state with keys over {a,b} of length <= %d satisfying INV; <= 16 values' % depth,
+                timeout=(1800 if thorough else 240), defines=['VERIF_TRIE_POOL=%d' % depth], object_bits=12,
+                param='key=' + key_of(kid), replay=replay_C28.replay_state))
+    # trie::remove whole (glue + shifting of values): depth 1, values vector of up to 2 + 5 entries
+    src = dict(files)
+    src['c28.cpp'] = harness(1, 2, False, shapes(1), only=['step_remove'])
+    groups.append(Group(
+        name='trie/step_remove', sources=src, entry='h_step_remove', lang='cpp',
+        unwind=9, unwindset=uset, min_obligations=8, functions=fns,
+        canary='CANARY', canary_label='canary', strength='bounded',
+        bound='trie::remove whole from every state with keys {a,b} and a values vector of <= 7 entries',
+        timeout=(1800 if thorough else 240), defines=['VERIF_TRIE_POOL=1', 'ORPHANS=5'], object_bits=12,
+        replay=replay_C28.replay_state))
+    only = os.environ.get('VERIF_GROUPS')          # development aid: regex on group names
+    if only:
+        groups = [g for g in groups if re.search(only, g.name)]
     return groups
